@@ -166,6 +166,9 @@ func runC16(c *fw.Ctx) int {
 func expectedFileNames(g *genpipe.Generated) []string {
 	prefix := strings.TrimSuffix(g.FileProto.GetName(), ".proto")
 	if !g.Variant.PerMessage {
+		if len(g.Schema.Messages) == 0 {
+			return nil // nothing to generate code for: no file (as in file-per-message mode)
+		}
 		return []string{prefix + ".pb.fm.go"}
 	}
 	var names []string
